@@ -139,6 +139,8 @@ func Run(r *ev.Run) {
 	r.Bounds["string_length_per_role"] = g.StringBounds()
 	r.Bounds["spellings"] = []string{"raw", "named", "hex-nonascii", "hex-all", "hex-marker", "heredoc", "heredoc-flush", "bare (labels, keys)", "number-as-string"}
 	r.Bounds["jobs"] = len(jobs)
+	r.Bounds["size_offsets_of_a_block_start"] = profilegen.SizeOffsets
+	r.Bounds["size_lists"] = []int{2000, 20000}
 	if r.Thorough() {
 		r.Bounds["layout_styles"] = len(profilegen.Styles(-1))
 	} else {
